@@ -374,7 +374,7 @@ class Exec:
             return True
         if isinstance(v, (bm.EagerGen,)):
             return True
-        if type(v).__name__ == "RegexVal":
+        if type(v).__name__ in ("RegexVal", "MatchVal"):
             return True
         if isinstance(v, bm.Kwargs):
             if v.open:
